@@ -20,6 +20,7 @@ import YorkieModel.Driver.JsonEngine
 import YorkieModel.Driver.PubSubEngine
 import YorkieModel.Driver.TreeEngine
 import YorkieModel.Driver.ConcEngine
+import YorkieModel.Driver.SrvEngine
 open Yorkie.Driver
 
 def engines : List (String × Engine) := [
@@ -43,7 +44,7 @@ def engines : List (String × Engine) := [
   ("presence", PresenceEngine.engine),
   ("proto", ProtoEngine.engine),
   ("fdoc", FDocEngine.engine), ("json", JsonEngine.engine),
-  ("pubsub", PubSubEngine.engine), ("pubsubstress", PubSubEngine.engine), ("tree", TreeEngine.engine), ("conc", ConcEngine.engine)
+  ("pubsub", PubSubEngine.engine), ("pubsubstress", PubSubEngine.engine), ("tree", TreeEngine.engine), ("conc", ConcEngine.engine), ("srv", SrvEngine.engine)
 ]
 
 partial def loop (e : Engine) (h : IO.FS.Stream) (out : IO.FS.Stream) (st : e.State) : IO Unit := do
